@@ -78,7 +78,15 @@ def cases(proj):
     circ_i = [i for i in second.interfaces if i.name == "circle"][0]
     t1 = first.types[0]
     U = lambda e: e.get_url()
+    # the same spelling in two contexts selects two entities (whichever is asked first)
+    run1 = [p for p in first.subroutines if p.name == "run"][0]
+    v1 = [v for v in first.variables if v.name == "current"][0]
+    yield ("own contents first: [[run]] in module first", "[[run]]", first, U(run1))
     yield ("own contents first: [[run]] in module second", "[[run]]", second, U(run2))
+    yield ("own contents first: [[current]] in module second", "[[current]]", second, U(v2))
+    yield ("own contents first: [[current]] in module first", "[[current]]", first, U(v1))
+    yield ("own contents first: [[state]] in module first", "[[state]]", first, U(t1))
+    yield ("own contents first: [[state]] in module second", "[[state]]", second, U(t2))
     yield ("parent's contents: [[state]] in second::run", "[[state]]", run2, U(t2))
     yield ("parent's contents with kind from a variable: [[state(type)]] in second::current", "[[state(type)]]", v2, U(t2))
     yield ("kind picks the collection: [[circle(type)]]", "[[circle(type)]]", second, U(circ_t))
@@ -114,7 +122,7 @@ def search():
 
 
 def count_cases():
-    return 18
+    return 23
 
 
 SITE = {
